@@ -288,6 +288,66 @@ func (r *Run) Violate(v Violation) {
 
 func (r *Run) NumViolations() int { r.mu.Lock(); defer r.mu.Unlock(); return len(r.violations) }
 
+// Dump is the transferable content of a run (a helper process hands its observations to the check's process).
+type Dump struct {
+	Evaluations int64               `json:"evaluations"`
+	Distinct    []string            `json:"distinct"`
+	DistinctN   int64               `json:"distinct_n"`
+	Counters    map[string]int64    `json:"counters"`
+	Sets        map[string][]string `json:"sets"`
+	Violations  []Violation         `json:"violations"`
+	Samples     map[string][]any    `json:"samples"`
+	Inconcl     []string            `json:"inconclusive"`
+}
+
+func (r *Run) Dump() *Dump {
+	r.mu.Lock()
+	defer r.mu.Unlock()
+	d := &Dump{Evaluations: r.evaluations, DistinctN: r.distinctN, Counters: map[string]int64{}, Sets: map[string][]string{}, Violations: r.violations, Samples: r.samples, Inconcl: r.inconcl}
+	for k := range r.distinct {
+		d.Distinct = append(d.Distinct, hex.EncodeToString([]byte(k)))
+	}
+	for k, v := range r.counters {
+		d.Counters[k] = v
+	}
+	for k, m := range r.sets {
+		for x := range m {
+			d.Sets[k] = append(d.Sets[k], x)
+		}
+	}
+	return d
+}
+
+// Merge adds the observations of a helper process; violations go through the known-finding matcher.
+func (r *Run) Merge(d *Dump) {
+	r.mu.Lock()
+	r.evaluations += d.Evaluations
+	r.distinctN += d.DistinctN
+	for _, k := range d.Distinct {
+		if b, err := hex.DecodeString(k); err == nil {
+			r.distinct[string(b)] = struct{}{}
+		}
+	}
+	for k, v := range d.Counters {
+		r.counters[k] += v
+	}
+	r.inconcl = append(r.inconcl, d.Inconcl...)
+	r.mu.Unlock()
+	for k, xs := range d.Sets {
+		for _, x := range xs {
+			r.Seen(k, x)
+		}
+	}
+	for k, xs := range d.Samples {
+		for _, x := range xs {
+			r.Sample(k, x)
+		}
+	}
+	for _, v := range d.Violations {
+		r.Violate(v)
+	}
+}
+
 // Result is what a child process hands to its parent.
 type Result struct {
 	Exit       int         `json:"exit"`
